@@ -24,7 +24,7 @@ def replay_with(g, rng, base, schedule, battery):
     # adopt the numbering of the base history
     for it in base:
         h.emit(it)
-        if it[0] == 1:
+        if it[0] in (1, 51):
             h.by_kind[world.KINDS[it[2]]].append(it[1])
     return h
 
@@ -32,11 +32,12 @@ def replay_with(g, rng, base, schedule, battery):
 def run(ctx):
     g = gtirb_from_repo.load()
     lookups.repeated_events(ctx, g, 'schedule-final-wrong')
+    lookups.many_members(ctx, g, 'schedule-final-wrong')
     rng = ctx.rng
     nh, ln = (40, 40) if ctx.quick else (600, 80)
     all_hists = []
     for hi in range(nh):
-        base_h = worldgen.Hist(g, rng, {"pool": POOL, "setm": lookups.EDIT_SETM})
+        base_h = worldgen.Hist(g, rng, {"pool": POOL, "setm": lookups.EDIT_SETM, "huge_rate": 0.15})
         base_h.setup_pool()
         base_h.build_some_structure(0.85)
         aimed = []
@@ -77,7 +78,7 @@ def run(ctx):
             h = worldgen.Hist(g, rng, {})
             for i, it in enumerate(base):
                 h.emit(it)
-                if it[0] == 1:
+                if it[0] in (1, 51):
                     h.by_kind[world.KINDS[it[2]]].append(it[1])
                     continue
                 k = sched(i) if sched else rng.choice([0, 0, 0, 1, 3])
